@@ -611,6 +611,95 @@ theorem positionUpdate_limit_inert_q (s : Sys ℝ) (st : Positional.State ℝ)
 
 end positionalQ
 
+/-! ## sharpness of the chart: a hinge beyond `±π` -/
+section wrap
+
+theorem rotate_neg_quat (v : V3 ℝ) (r : Q4 ℝ) : rotate v ⟨-r.w, -r.x, -r.y, -r.z⟩ = rotate v r := by
+  simp only [rotate, Q4.vec, V3.dot, V3.cross, V3.mk.injEq]
+  refine ⟨by ring, by ring, by ring⟩
+
+theorem quatRotAxis_sub_two_pi (a : V3 ℝ) (q : ℝ) :
+    quatRotAxis a (q - 2 * Real.pi)
+      = ⟨-(quatRotAxis a q).w, -(quatRotAxis a q).x, -(quatRotAxis a q).y, -(quatRotAxis a q).z⟩ := by
+  have h : (q - 2 * Real.pi) / (1 + 1) = q / (1 + 1) - Real.pi := by ring
+  simp only [quatRotAxis, HasTrig.sin, HasTrig.cos, h, Real.sin_sub_pi, Real.cos_sub_pi, Q4.mk.injEq]
+  refine ⟨trivial, by ring, by ring, by ring⟩
+
+/-- `axis_angle_ang` sees the joint rotation only through `rotate`: turning a hinge by `q` and by
+`q − 2π` gives the same measured angles -/
+theorem axisAngleAng_sub_two_pi (p a : V3 ℝ) (q : ℝ) (f : M3 ℝ) (par : ℝ) :
+    axisAngleAng ⟨p, quatRotAxis a q⟩ f par = axisAngleAng ⟨p, quatRotAxis a (q - 2 * Real.pi)⟩ f par := by
+  simp only [axisAngleAng, quatRotAxis_sub_two_pi, rotate_neg_quat]
+
+/-- **hinge beyond the chart: the spring pipeline measures `q ∈ (π, 3π]` as `q − 2π`.**  The joint
+force with limits is the limit-free force plus the limit torque for the coordinate `q − 2π` — also
+when `q` itself is inside `[lo, hi]`. -/
+theorem oneDof_hinge_wrap (lk : LinkP ℝ) (jd : Motion ℝ) (d : DofP ℝ) (a : V3 ℝ)
+    (q qd tau : ℝ) (hdm : d.motion = ⟨a, ⟨0, 0, 0⟩⟩) (ha : V3.dot a a = 1)
+    (h1 : Real.pi < q) (h2 : q ≤ 3 * Real.pi) :
+    Spring.oneDof true lk (Kin.jcalc ⟨.one, [q], [qd], [d]⟩).1 jd d tau
+      = ⟨(Spring.oneDof false lk (Kin.jcalc ⟨.one, [q], [qd], [d]⟩).1 jd d tau).ang
+          - V3.smul (lk.cLimitStiffness * Spring.limDelta (q - 2 * Real.pi) d.lo d.hi) a,
+         (Spring.oneDof false lk (Kin.jcalc ⟨.one, [q], [qd], [d]⟩).1 jd d tau).vel⟩ := by
+  have hA := v3Any_unit a ha
+  obtain ⟨hb, hab, hc⟩ := Inv.orthogonals_spec a ha
+  have hj : (Kin.jcalc ⟨.one, [q], [qd], [d]⟩).1 = ⟨⟨0, 0, 0⟩, quatRotAxis a q⟩ := by
+    rw [Inv.jcalc_one_hinge d q qd (by rw [hdm]; exact ha) (by rw [hdm]), hdm]
+    simp only [zero_mul]
+  have hfr : frame1 d.motion = ⟨⟨a, (Inv.orthogonals a).1, V3.cross a (Inv.orthogonals a).1⟩, eye, 1⟩ := by
+    simp [frame1, hdm, hA, v3Any_zero_lit, orth_eq, hc]
+  have hv : v3Any d.motion.vel = false := by rw [hdm]; exact v3Any_zero_lit
+  have hpsi : (axisAngleAng ⟨⟨0, 0, 0⟩, quatRotAxis a q⟩ (frame1 d.motion).ang
+      (frame1 d.motion).parity).psi = q - 2 * Real.pi := by
+    rw [axisAngleAng_sub_two_pi, hfr]
+    simp only
+    rw [aa_psi, (Inv.hinge_psi a (Inv.orthogonals a).1 ⟨0, 0, 0⟩ (q - 2 * Real.pi) 1 ha hb hab
+      (by linarith) (by linarith)).1]
+  have hfa0 : (frame1 d.motion).ang.r0 = a := by rw [hfr]
+  rw [hj]
+  unfold Spring.oneDof
+  simp only [if_true, Bool.false_eq_true, if_false, hv, Bool.not_false, maskV_false, maskV_true,
+    v3_sub_zero_lit, hpsi, hfa0]
+
+/-- **the chart hypothesis `q ≤ π` of `PureOne.hinge` is necessary (known limitation of the spring
+joint model, confirmed on the real code)**: a hinge with `lo ≤ q ≤ hi` but `π < q ≤ 3π` and
+`q − 2π < lo` gets a non-zero limit torque `−k·(q − 2π − lo)·axis` although `q` is inside its range. -/
+theorem oneDof_hinge_wrap_ne (lk : LinkP ℝ) (jd : Motion ℝ) (d : DofP ℝ) (a : V3 ℝ)
+    (q qd tau l : ℝ) (hdm : d.motion = ⟨a, ⟨0, 0, 0⟩⟩) (ha : V3.dot a a = 1)
+    (h1 : Real.pi < q) (h2 : q ≤ 3 * Real.pi) (hlo : d.lo = some l) (hl : q - 2 * Real.pi < l)
+    (hhi : ∀ u, d.hi = some u → q - 2 * Real.pi ≤ u) (hk : lk.cLimitStiffness ≠ 0) :
+    Spring.oneDof true lk (Kin.jcalc ⟨.one, [q], [qd], [d]⟩).1 jd d tau
+      ≠ Spring.oneDof false lk (Kin.jcalc ⟨.one, [q], [qd], [d]⟩).1 jd d tau := by
+  rw [oneDof_hinge_wrap lk jd d a q qd tau hdm ha h1 h2]
+  have hdelta : Spring.limDelta (q - 2 * Real.pi) d.lo d.hi = q - 2 * Real.pi - l := by
+    unfold Spring.limDelta
+    rw [hlo]
+    cases hu : d.hi with
+    | none => simp only [if_pos hl]
+    | some u => simp only [if_pos hl, if_neg (not_lt.mpr (hhi u hu))]
+  rw [hdelta]
+  intro heq
+  have hang := congrArg Force.ang heq
+  simp only at hang
+  set F := (Spring.oneDof false lk (Kin.jcalc ⟨.one, [q], [qd], [d]⟩).1 jd d tau).ang with hF
+  have hc : lk.cLimitStiffness * (q - 2 * Real.pi - l) ≠ 0 :=
+    mul_ne_zero hk (ne_of_lt (by linarith))
+  have hz : V3.smul (lk.cLimitStiffness * (q - 2 * Real.pi - l)) a = ⟨0, 0, 0⟩ := by
+    have e : F - V3.smul (lk.cLimitStiffness * (q - 2 * Real.pi - l)) a = F := hang
+    obtain ⟨fx, fy, fz⟩ := F
+    simp only [V3.smul, V3.sub_def, V3.mk.injEq] at e ⊢
+    exact ⟨by linarith [e.1], by linarith [e.2.1], by linarith [e.2.2]⟩
+  simp only [V3.smul, V3.mk.injEq] at hz
+  have : a = ⟨0, 0, 0⟩ := by
+    obtain ⟨ax, ay, az⟩ := a
+    simp only [V3.mk.injEq]
+    exact ⟨(mul_eq_zero.mp hz.1).resolve_left hc, (mul_eq_zero.mp hz.2.1).resolve_left hc,
+      (mul_eq_zero.mp hz.2.2).resolve_left hc⟩
+  rw [this] at ha
+  simp [V3.dot] at ha
+
+end wrap
+
 /-! ## generalized pipeline: the limit rows are inactive EXACTLY when `q` is inside the range -/
 section generalizedQ
 variable {K : Type} [Field K] [LinearOrder K] [IsStrictOrderedRing K] [HasPow K]
